@@ -37,6 +37,9 @@ fn sess_recv(s: &mut Session, ctr: u32) -> &'static str {
 }
 
 fn run_case(out: &mut Out, case: &Case) {
+    if case.kind == "gg" {
+        return crate::c04_group::run_case(out, case);
+    }
     out.case(case.id, &case.kind);
     match case.kind.as_str() {
         "u" | "p" => {
@@ -130,10 +133,43 @@ fn gen_group(r: &mut Rng, len: usize, out: &mut Out) -> Vec<String> {
     ops
 }
 
+/// group glue: the `g` generator's (node, counter) sequence with message kinds mixed in
+fn gen_group_glue(r: &mut Rng, len: usize, out: &mut Out) -> Vec<String> {
+    let base = gen_group(r, len, out);
+    let mut ops = Vec::new();
+    for op in base {
+        let mut it = op.split_whitespace();
+        let _fab = it.next();
+        let node = it.next().unwrap_or("100");
+        let ctr = it.next().unwrap_or("0");
+        let kind = match r.below(100) {
+            0..=74 => "d",
+            75..=84 => "c",
+            85..=92 => "x",
+            _ => "m",
+        };
+        ops.push(format!("{} {} {}", node, ctr, kind));
+        if kind != "d" && r.chance(2, 3) {
+            // the same counter again as an authentic data message: must not have been consumed
+            ops.push(format!("{} {} d", node, ctr));
+        }
+    }
+    ops
+}
+
 pub fn gen(a: &Args) -> String {
     let mut r = Rng::new(a.seed);
     let mut out = Out::default();
     let n_cases = if a.thorough { 60000 } else { 4000 };
+    // group glue stream: real encrypted group messages through the real receive path
+    let n_glue = if a.thorough { 400 } else { 40 };
+    for id in 0..n_glue {
+        let mut cr = r.fork();
+        let len = cr.range(10, 60) as usize;
+        let ops = gen_group_glue(&mut cr, len, &mut out);
+        out.stat("kind_gg", 1);
+        run_case(&mut out, &Case { id: 1_000_000 + id, kind: "gg".to_string(), ops });
+    }
     for id in 0..n_cases {
         let mut cr = r.fork();
         let len = if a.thorough { cr.range(2, 120) } else { cr.range(2, 40) } as usize;
